@@ -16,8 +16,8 @@ pub struct Mls {
     pub shape: String,
 }
 
-const BASES: &[&str] = &["", "  ", "    ", "\t", "\t\t", " \t", "\u{3000}", "  \u{b}", "        "];
-const CONTENTS: &[&str] = &["text", "select *", "it's", "x", "  more indented", "\ttabbed", "a 'quoted' b", "ünï", "trailing  ", "trailing\t", "''", "end;", "// c", "{ c }"];
+const BASES: &[&str] = &["", "  ", "    ", "      ", "\t", "\t\t", " \t", "\u{3000}", "  \u{b}", "        ", "          "];
+const CONTENTS: &[&str] = &["text", "select *", "it's", "x", "  more indented", "\ttabbed", "a 'quoted' b", "ünï", "trailing  ", "trailing\t", "''", "end;", "// c", "{ c }", "  ", "\t", "   \t "];
 
 /// append a line ending; a lone CR directly followed by LF would read as one CRLF, so an LF
 /// after a text that ends in CR (empty line after a CR ending) is written as CRLF
@@ -69,9 +69,10 @@ pub fn gen(rng: &mut Rng) -> Mls {
                     cut -= 1;
                 }
                 text.push_str(&base[..cut]);
-                text.push_str("under");
+                let u = *rng.pick(&["under", "ab", "x", "x1"]);
+                text.push_str(u);
                 conforming = false;
-                value_lines.push("under".to_string());
+                value_lines.push(u.to_string());
                 shape.push_str(" under");
             }
             3 => {
@@ -124,6 +125,10 @@ pub const CARRIERS: &[&str] = &[
     "begin\n  case X of\n    1: Y := {};\n  end;\nend;\n",
     "var\n  S: string = {};\n",
     "begin\n  X := AVeryLongFunctionName(AnotherVeryLongArgumentName, {}, YetAnotherQuiteLongArgumentName);\nend;\n",
+    "begin\n  X := Foo({}, {});\nend;\n",
+    "begin\n  X := {} + {};\nend;\n",
+    "begin\n  X := {}.Format([{}, Aaaaaaa, Bbbbbbbbb]);\nend;\n",
+    "begin\n  Foo({}.Format([Aaaaaaa, Bbbbbbbbb, Cccccccc]), {});\nend;\n",
 ];
 
 /// expand a carrier with literals; returns (program text, byte offset of each literal)
